@@ -787,8 +787,8 @@ Proof.
            eexists. split; [reflexivity|].
            apply (reports_nothing_of _ _ r); [exact Hnv| |exact R3].
            unfold hSize. cbn [h_kind h_coords].
-           change (sid SRect mod 256 :: dt mod 256 :: v ++ G ++ C') with ([sid SRect mod 256; dt mod 256] ++ v ++ G ++ C').
-           rewrite !blen_app, <- R1, blen_app, HG. unfold gridSizes in R2. cbn [h_coords] in R2. rewrite map_length in R2.
+           assert (Eq2 : q2 = G ++ C') by (unfold q2, C'; apply firstn_app_ge; exact Hge).
+           rewrite Eq2, !blen_app, <- R1, blen_app, HG. unfold gridSizes in R2. cbn [h_coords] in R2. rewrite map_length in R2.
            unfold blen at 1 2. rewrite Hv, R2. cbn [length]. unfold dm. lia.
         -- (* grid sizes cut: the remaining bytes are fewer than one item of any later read *)
            rewrite read_coords_lt8 by lia.
@@ -799,6 +799,142 @@ Proof.
            { exists (Z.to_nat (blen q2 / 4)). pose proof (blen_nonneg q2).
              assert (0 <= blen q2 / 4) by (apply Z.div_pos; lia). unfold blen in *. lia. }
            destruct Hg4 as [n Hn]. rewrite (chunk4_length n g Hn).
-           change (sid SRect mod 256 :: dt mod 256 :: v ++ q2) with ([sid SRect mod 256; dt mod 256] ++ v ++ q2).
            rewrite !blen_app, <- G1, blen_app. unfold blen at 1 2 3. rewrite Hv, Hn. cbn [length]. rewrite blen_nil. lia.
+Qed.
+
+(* ------------------------------------------------------------------ any history of one file *)
+(* Operations on a file created by initialize() with header h, through any handle carrying h
+   (the creating one or one obtained later from fromFile): *)
+Inductive hop :=
+| HAdd (t p : bytes)      (* addField *)
+| HTorn (tail : bytes)    (* crash of an append: the complete records survive, followed by fewer than
+                             recSize ARBITRARY bytes (covers every byte prefix of the record being written,
+                             also when it was being written over an older torn tail) *)
+| HReopen                 (* FieldsIO.fromFile *)
+| HRead (idx : Z)
+| HNFields
+| HTimes.
+
+Inductive hobs :=
+| OUnit | OHdr (r : result header) | ORec (r : result (bytes * bytes)) | ONum (n : Z)
+| OTimesR (r : result (list bytes)).
+
+Definition wf_recb (fS : Z) (t p : bytes) : bool := (blen t =? tSize) && (blen p =? fS).
+
+Definition conc_step (m : add_mode) (h : header) (f : bytes) (o : hop) : bytes * hobs :=
+  match o with
+  | HAdd t p => if wf_recb (fSize h) t p
+                then match addBytes m h f t p with Ok f' => (f', OUnit) | Err _ => (f, OUnit) end
+                else (f, OUnit)                       (* the size/dtype assertions reject the field *)
+  | HTorn tail => if blen tail <? recSize h
+                  then (firstn (Z.to_nat (hSize h + nFields h f * recSize h)) f ++ tail, OUnit)
+                  else (f, OUnit)
+  | HReopen => (f, OHdr (decode_header f))
+  | HRead idx => (f, ORec (readField h f idx))
+  | HNFields => (f, ONum (nFields h f))
+  | HTimes => (f, OTimesR (times h f))
+  end.
+
+(* the specification: a list of records *)
+Definition spec_step (h : header) (recs : list (bytes * bytes)) (o : hop) : list (bytes * bytes) * hobs :=
+  match o with
+  | HAdd t p => if wf_recb (fSize h) t p then (recs ++ [(t, p)], OUnit) else (recs, OUnit)
+  | HTorn _ => (recs, OUnit)
+  | HReopen => (recs, OHdr (Ok h))
+  | HRead idx => (recs, ORec (expected_read recs idx))
+  | HNFields => (recs, ONum (Z.of_nat (length recs)))
+  | HTimes => (recs, OTimesR (Ok (map fst recs)))
+  end.
+
+Fixpoint conc_run (m : add_mode) (h : header) (f : bytes) (ops : list hop) : list hobs :=
+  match ops with
+  | [] => []
+  | o :: r => let '(f', ob) := conc_step m h f o in ob :: conc_run m h f' r
+  end.
+
+Fixpoint spec_run (h : header) (recs : list (bytes * bytes)) (ops : list hop) : list hobs :=
+  match ops with
+  | [] => []
+  | o :: r => let '(recs', ob) := spec_step h recs o in ob :: spec_run h recs' r
+  end.
+
+Definition no_crash (o : hop) : Prop := match o with HTorn _ => False | _ => True end.
+
+Lemma firstn_complete h recs tail : wf_header h -> wf_recs h recs -> blen tail < recSize h ->
+  firstn (Z.to_nat (hSize h + nFields h (the_file h recs tail) * recSize h)) (the_file h recs tail)
+  = the_file h recs [].
+Proof.
+  intros Hh Hr Ht. pose proof (wf_fSize_nonneg h Hh) as HfS.
+  unfold nFields, recSize, the_file in *.
+  rewrite (nFields_file_of (hSize h) (fSize h)) by (try assumption; apply header_bytes_len).
+  unfold file_of. rewrite app_nil_r, app_assoc. apply firstn_app_exact.
+  pose proof (body_len (fSize h) recs HfS Hr) as B. pose proof (header_bytes_len h) as L.
+  unfold blen, tSize in *. rewrite app_length. nia.
+Qed.
+
+Lemma any_history_gen m h ops : wf_header h -> is0d h = false ->
+  (m = Raw -> Forall no_crash ops) ->
+  forall recs tail, wf_recs h recs -> blen tail < recSize h -> (m = Raw -> tail = []) ->
+  conc_run m h (the_file h recs tail) ops = spec_run h recs ops.
+Proof.
+  intros Hh H0. induction ops as [|o ops IH]; intros Hm recs tail Hr Ht Hmt; [reflexivity|].
+  assert (Hm' : m = Raw -> Forall no_crash ops) by (intros E; specialize (Hm E); inversion Hm; assumption).
+  assert (H8 : blen [] < recSize h)
+    by (destruct Hh as (_ & Hn & _); pose proof (recSize_ge8 h Hn); rewrite blen_nil; lia).
+  destruct (reads_the_file h recs tail Hh Hr Ht) as (R1 & R2 & R3 & R4).
+  cbn [conc_run spec_run]. destruct o as [t p|tail'| |idx| |]; cbn [conc_step spec_step].
+  - destruct (wf_recb (fSize h) t p) eqn:W.
+    + assert (Hw : wf_rec (fSize h) (t, p)) by (unfold wf_recb in W; split; cbn [fst snd]; lia).
+      assert (E : addBytes m h (the_file h recs tail) t p = Ok (the_file h (recs ++ [(t, p)]) [])).
+      { destruct m.
+        - rewrite (Hmt eq_refl). apply add_clean; assumption.
+        - unfold the_file. apply aligned_add_after_torn; try assumption.
+          + apply wf_fSize_nonneg, Hh.
+          + apply header_bytes_len. }
+      rewrite E. f_equal. apply IH; try assumption; try reflexivity.
+      apply Forall_app. split; [assumption|constructor; [assumption|constructor]].
+    + f_equal. apply IH; assumption.
+  - destruct m; [specialize (Hm eq_refl); inversion Hm; contradiction|].
+    destruct (Z.ltb_spec (blen tail') (recSize h)).
+    + rewrite firstn_complete by assumption. f_equal.
+      replace (the_file h recs [] ++ tail') with (the_file h recs tail')
+        by (unfold the_file, file_of; rewrite !app_nil_r, <- app_assoc; reflexivity).
+      apply IH; try assumption. discriminate.
+    + f_equal. apply IH; assumption.
+  - rewrite R1. f_equal. apply IH; assumption.
+  - rewrite (R3 H0). f_equal. apply IH; assumption.
+  - rewrite R2. f_equal. apply IH; assumption.
+  - rewrite (R4 H0). f_equal. apply IH; assumption.
+Qed.
+
+(* (6) ANY interleaving of write / crash / re-open / read on a file created by initialize():
+   with the aligned write position every observation is the one the record list predicts *)
+Theorem any_history_aligned h ops : wf_header h -> is0d h = false ->
+  conc_run Aligned h (header_bytes h) ops = spec_run h [] ops.
+Proof.
+  intros Hh H0. rewrite <- the_file_nil.
+  apply any_history_gen; try assumption; try discriminate; try constructor.
+  destruct Hh as (_ & Hn & _). pose proof (recSize_ge8 h Hn). rewrite blen_nil. lia.
+Qed.
+
+(* the pinned write position: the same, as long as no append is interrupted *)
+Theorem any_history_raw_crash_free h ops : wf_header h -> is0d h = false -> Forall no_crash ops ->
+  conc_run Raw h (header_bytes h) ops = spec_run h [] ops.
+Proof.
+  intros Hh H0 Hc. rewrite <- the_file_nil.
+  apply any_history_gen; try assumption; try constructor; auto.
+  destruct Hh as (_ & Hn & _). pose proof (recSize_ge8 h Hn). rewrite blen_nil. lia.
+Qed.
+
+(* non-vacuity of the hypotheses: a 2-D Rectilinear float32 header with 3 x 2 points *)
+Example wf_header_example :
+  let h := mkHeader SRect 4 2 [repeat 7 24; repeat 9 16] in
+  wf_header h /\ is0d h = false /\ fSize h = 48 /\ hSize h = 58 /\
+  conc_run Aligned h (header_bytes h)
+    [HAdd (repeat 1 8) (repeat 2 48); HTorn (repeat 3 55); HAdd (repeat 4 8) (repeat 5 48); HRead (-1); HNFields]
+  = [OUnit; OUnit; OUnit; ORec (Ok (repeat 4 8, repeat 5 48)); ONum 2].
+Proof.
+  cbv zeta. split.
+  { unfold wf_header, in_range. cbn. repeat split; try lia; repeat constructor; cbn; lia. }
+  repeat split; vm_compute; reflexivity.
 Qed.
